@@ -501,4 +501,31 @@ theorem go_quote_law (env : Env) (ws : List Bytes) :
 example : GIV.Go.Script.parse [] (lit "a 'b c' #d") = some (.ok [lit "a", lit "b c"]) := by decide +kernel
 example : GIV.Go.Script.parse [] (lit "a 'b") = some (.fatal GIV.ScriptGo.fatalMsg) := by decide +kernel
 
+open GIV.ScriptGo in
+/-- The mapping function `expand` hands to os.Expand — the closure in (*TestScript).expand, translated from
+the source on every run — never panics and is the model's `expandMapping` for every environment and key:
+`NAME@R` yields the quoted value of exactly `NAME` (the two-byte suffix "@R" is cut off as a suffix, once),
+every other key the value of the variable of that name. -/
+theorem go_expandMapping_agrees (env : Env) (key : Bytes) :
+    GIV.Go.Script.expandMapping env key = some (.ok (expandMapping env key)) :=
+  expandMapping_eq env key
+
+open GIV.ScriptGo in
+/-- `${NAME@R}` for the translated mapping: the regexp-quoted value of `NAME`, whatever `NAME` ends in
+(also `R` or `@`). -/
+theorem go_atR_exact (env : Env) (name : Bytes) :
+    GIV.Go.Script.expandMapping env (name ++ [64, 82]) = some (.ok (quoteMeta (getenv env name))) := by
+  rw [expandMapping_eq]
+  have f1 : Gen.Script.atRSuffix = [64, 82] := rfl
+  have f2 : Gen.Script.atRQuotesMeta = true := rfl
+  have hs : ([64, 82] : Bytes).isSuffixOf (name ++ [64, 82]) = true :=
+    List.isSuffixOf_iff_suffix.mpr (List.suffix_append _ _)
+  have hl : ([64, 82] : Bytes).length = 2 := rfl
+  simp only [expandMapping, f1, f2, hs, if_true, List.length_append, hl, Nat.add_sub_cancel, List.take_left']
+  have : (name.length != name.length + 2) = true := by simp [bne]
+  simp [this]
+
+-- the generated definition, evaluated by the kernel: ${KR@R} with KR = "a.b", K = "zz"
+example : GIV.Go.Script.expandMapping [(lit "K", lit "zz"), (lit "KR", lit "a.b")] (lit "KR@R") = some (.ok (lit "a\\.b")) := by decide +kernel
+
 end GIV.C02
